@@ -30,8 +30,12 @@ Fixpoint egcd (fuel : nat) (a b : Z) : Z * Z * Z :=
   match fuel with
   | O => (a, 1, 0)
   | S f => if b =? 0 then (a, 1, 0)
-           else let '(g, u, v) := egcd f b (a mod b) in (g, v, u - (a / b) * v)
+           else let (q, r) := Z.div_eucl a b in          (* one division: q = a / b, r = a mod b *)
+                let '(g, u, v) := egcd f b r in (g, v, u - q * v)
   end.
+
+Lemma div_eucl_eq a b : Z.div_eucl a b = (a / b, a mod b).
+Proof. unfold Z.div, Z.modulo. destruct (Z.div_eucl a b). reflexivity. Qed.
 
 Definition inv_mod (m a : Z) : Z :=
   let '(_, _, v) := egcd (Z.to_nat (2 * Z.log2 m + 3)) m (a mod m) in v mod m.
@@ -45,7 +49,7 @@ Proof.
     repeat split; try lia. apply Z.divide_refl. apply Z.divide_0_r.
   - cbn [egcd] in E. destruct (Z.eqb_spec b 0) as [->|Hb].
     + inversion E; subst. repeat split; try lia. apply Z.divide_refl. apply Z.divide_0_r.
-    + destruct (egcd f b (a mod b)) as [[g' u'] v'] eqn:E'. injection E as <- <- <-.
+    + rewrite div_eucl_eq in E. destruct (egcd f b (a mod b)) as [[g' u'] v'] eqn:E'. injection E as <- <- <-.
       assert (Hm : 0 <= a mod b < b) by (apply Z.mod_pos_bound; lia).
       assert (Hdiv : a = b * (a / b) + a mod b) by (apply Z.div_mod; lia).
       assert (Hq : 1 <= a / b) by (apply Z.div_le_lower_bound; lia).
